@@ -7,6 +7,7 @@
   (context-scoped follow read: C02/C03/C06 are proved for the store model).
 -/
 import XsProofs.Handler
+import XsProofs.Registry
 namespace Xs.C14
 open Xs.Serve
 
@@ -75,5 +76,36 @@ example :
     let own : SFrame := { topic := "h.out", ctx := 0, id := 7, mdata := some [("handler_id", idText 5)] }
     (run cfg eval .running 0 [{ topic := "a", ctx := 0, id := 6 }, own, { topic := "b", ctx := 0, id := 8 }]).2.2.2.map
       (fun p => (p.1, p.2.id)) = [(0, 6), (1, 8)] := by decide
+
+/-- the synthetic markers of its own subscription (`xs.threshold`, `xs.pulse`: no meta, a topic
+    that is nobody's `.register` / `.unregister`) are frames like any other: a running instance's
+    closure is run for them, whatever the handler is called -/
+theorem markers_are_invoked (cfg : HCfg) (m : SFrame) (hm : m.mdata = none)
+    (ht : m.topic = "xs.pulse" ∨ m.topic = "xs.threshold") : isInvoke cfg m = true := by
+  have hreg : isRegTraffic cfg m = false := by
+    cases h : isRegTraffic cfg m with
+    | false => rfl
+    | true =>
+      exfalso
+      rw [isRegTraffic_iff] at h
+      rcases ht with ht | ht <;> rw [ht] at h
+      · have e : classify "xs.pulse" = some ("xs", .other) := by decide
+        rw [e] at h; rcases h with h | h <;> (injection h with h; injection h with _ h; cases h)
+      · have e : classify "xs.threshold" = some ("xs", .other) := by decide
+        rw [e] at h; rcases h with h | h <;> (injection h with h; injection h with _ h; cases h)
+  simp [isInvoke, hreg, isOwn, hm, metaGet]
+
+/-- … so between two stored frames a pulse marker is one more invocation, in its place -/
+theorem pulse_is_one_more_invocation (cfg : HCfg) (eval : σ → SFrame → σ × EvalRes) (env : σ) (p : SFrame)
+    (hm : p.mdata = none) (ht : p.topic = "xs.pulse") :
+    (step cfg eval .running env p).2.2.2 = true := by
+  have h := (dispatch_invoke_iff cfg p).2 (markers_are_invoked cfg p hm (Or.inl ht))
+  unfold step
+  simp only [h]
+  cases he : eval env p with
+  | mk env' r =>
+    cases r with
+    | error msg => rfl
+    | ok appends ret => simp only; split <;> rfl
 
 end Xs.C14
